@@ -245,7 +245,11 @@ func sortC14nStatements(statements []*Statement) {
 			return n
 		}
 
-		return cmp.Compare(a.Object.Value, b.Object.Value)
+		if n := cmp.Compare(a.Object.Value, b.Object.Value); n != 0 {
+			return n
+		}
+
+		return cmp.Compare(a.Label.Value, b.Label.Value)
 	})
 }
 
